@@ -108,7 +108,7 @@ func runC21(c *Ctx) {
 			case *ast.AssignStmt:
 				if len(v.Rhs) == 1 {
 					if call, isCall := unparen(v.Rhs[0]).(*ast.CallExpr); isCall {
-						if sel, isSel := unparen(call.Fun).(*ast.SelectorExpr); isSel && sel.Sel.Name == "getTenantShardCached" && len(call.Args) == 1 && canon(call.Args[0]) == "tenant" {
+						if sel, isSel := unparen(call.Fun).(*ast.SelectorExpr); isSel && sel.Sel.Name == "getTenantShardCached" && len(call.Args) == 1 && canon(call.Args[0]) == namesOf(fn).P(0) {
 							ring = objOf(info, v.Lhs[0])
 						}
 					}
@@ -117,7 +117,7 @@ func runC21(c *Ctx) {
 				if len(v.Results) == 1 {
 					if call, isCall := unparen(v.Results[0]).(*ast.CallExpr); isCall && len(call.Args) == 3 {
 						if sel, isSel := unparen(call.Fun).(*ast.SelectorExpr); isSel && sel.Sel.Name == "GetN" && ring != nil && objOf(info, sel.X) == ring &&
-							canon(call.Args[0]) == "tenant" && canon(call.Args[2]) == "n" {
+							canon(call.Args[0]) == namesOf(fn).P(0) && canon(call.Args[1]) == namesOf(fn).P(1) && canon(call.Args[2]) == namesOf(fn).P(2) {
 							ok = true
 						}
 					}
@@ -222,7 +222,7 @@ func runC21(c *Ctx) {
 			if inner.key != nil {
 				k = inner.key.Name()
 			}
-			if !strings.Contains(seedTxt, "ShuffleShardSeed(tenant,"+k+")") {
+			if !strings.Contains(seedTxt, "ShuffleShardSeed("+namesOf(fn).P(0)+","+k+")") {
 				bad, badPos = "the per-zone random stream is seeded by "+seedTxt+", not by ShuffleShardSeed(tenant, "+k+")", p.Pos(def.Pos())
 			}
 		}
@@ -254,8 +254,13 @@ func runC21(c *Ctx) {
 		if !ok {
 			return true
 		}
-		if f := calleeOf(info, call); f != nil && (f.Name() == "Sort" || f.Name() == "Stable") && len(call.Args) == 1 && strings.HasPrefix(canon(call.Args[0]), "sectionsByAZ[") && sortedPos == token.NoPos {
-			sortedPos = call.Pos()
+		if f := calleeOf(info, call); f != nil && (f.Name() == "Sort" || f.Name() == "Stable") && len(call.Args) == 1 && sortedPos == token.NoPos {
+			// the per-zone section lists: an element of a map of section lists
+			if ix, ok := unparen(call.Args[0]).(*ast.IndexExpr); ok {
+				if m, ok := info.TypeOf(ix.X).Underlying().(*types.Map); ok && strings.HasSuffix(shortType(m.Elem()), "sections") {
+					sortedPos = call.Pos()
+				}
+			}
 		}
 		if sel, ok := unparen(call.Fun).(*ast.SelectorExpr); ok && isRandStream(info.TypeOf(sel.X)) && selPos == token.NoPos {
 			selPos = call.Pos()
@@ -267,24 +272,41 @@ func runC21(c *Ctx) {
 
 	// (4)
 	okTake := false
+	var takeVar types.Object
 	ast.Inspect(fn.Body(), func(nd ast.Node) bool {
 		is, ok := nd.(*ast.IfStmt)
 		if !ok || is.Else == nil || !strings.HasSuffix(canon(is.Cond), ".ZoneAwarenessDisabled") {
 			return true
 		}
 		thenTxt, elseTxt := "", ""
+		var thenVar, elseVar types.Object
 		if len(is.Body.List) == 1 {
-			if as, ok := is.Body.List[0].(*ast.AssignStmt); ok && canon(as.Lhs[0]) == "take" {
+			if as, ok := is.Body.List[0].(*ast.AssignStmt); ok && len(as.Lhs) == 1 {
+				thenVar = objOf(info, as.Lhs[0])
 				thenTxt = expandDefText(fn, info, as.Rhs[0])
 			}
 		}
 		if eb, ok := is.Else.(*ast.BlockStmt); ok && len(eb.List) == 1 {
-			if as, ok := eb.List[0].(*ast.AssignStmt); ok && canon(as.Lhs[0]) == "take" {
-				elseTxt = canon(as.Rhs[0])
+			if as, ok := eb.List[0].(*ast.AssignStmt); ok && len(as.Lhs) == 1 {
+				elseVar = objOf(info, as.Lhs[0])
+				// the per-zone share: ShuffleShardExpectedInstancesPerZone(<shard size>, len(<zones map>))
+				if call, ok := unparen(as.Rhs[0]).(*ast.CallExpr); ok && len(call.Args) == 2 {
+					elseTxt = canon(call.Fun) + "(" + expandDefText(fn, info, call.Args[0]) + "," + canon(call.Args[1]) + ")"
+				}
 			}
 		}
-		if strings.Contains(thenTxt, "getShardSize(tenant)") && strings.HasPrefix(elseTxt, "ShuffleShardExpectedInstancesPerZone(ss,len(nodesByAZ))") {
+		// both branches set the same variable: the shard size itself, or the per-zone share of it over the zones map
+		zones := ""
+		for _, l := range loops {
+			if l.rs.Value != nil && zones == "" {
+				zones = canon(l.rs.X)
+			}
+		}
+		size := "getShardSize(" + namesOf(fn).P(0) + ")"
+		if thenVar != nil && thenVar == elseVar && strings.Contains(thenTxt, size) &&
+			strings.HasPrefix(elseTxt, "ShuffleShardExpectedInstancesPerZone(") && strings.Contains(elseTxt, size+",len("+zones+"))") {
 			okTake = true
+			takeVar = thenVar
 		}
 		return true
 	})
@@ -295,7 +317,7 @@ func runC21(c *Ctx) {
 				t = canon(ret.Results[0])
 			}
 		}
-		if t != "int(math.Ceil(float64(shardSize)/float64(numZones)))" {
+		if t != "int(math.Ceil(float64("+namesOf(ef).P(0)+")/float64("+namesOf(ef).P(1)+")))" {
 			okTake = false
 		}
 	}
@@ -303,7 +325,21 @@ func runC21(c *Ctx) {
 	okErr := false
 	ast.Inspect(fn.Body(), func(nd ast.Node) bool {
 		is, ok := nd.(*ast.IfStmt)
-		if !ok || canon(is.Cond) != "take>len(azNodes)" || len(is.Body.List) == 0 {
+		if !ok || len(is.Body.List) == 0 || takeVar == nil {
+			return true
+		}
+		// take > len(<the zone's nodes: the value variable of the loop over the zones>)
+		be, isBin := unparen(is.Cond).(*ast.BinaryExpr)
+		if !isBin || be.Op != token.GTR || objOf(info, be.X) != takeVar {
+			return true
+		}
+		isZoneNodes := false
+		for _, l := range loops {
+			if l.rs.Value != nil && canon(be.Y) == "len("+canon(l.rs.Value)+")" {
+				isZoneNodes = true
+			}
+		}
+		if !isZoneNodes {
 			return true
 		}
 		if ret, ok := is.Body.List[len(is.Body.List)-1].(*ast.ReturnStmt); ok && len(ret.Results) == 2 && isNil(info, ret.Results[0]) && !isNil(info, ret.Results[1]) {
